@@ -20,7 +20,9 @@ PARTIAL = []
 TRUSTED = ['hand-written model of TexSoup.data.TexArgs (lean/TexSoupModel/Args.lean), tied to the code by the '
            'correspondence run only',
            'correspondence harness (props/c18.py, lib_args.py): op vocabulary, canonical answers',
-           'the list reference of the oracle (props/c18.py _oracle_history) = ArgsSpec of the proofs by inspection']
+           'the list reference of the oracle (props/c18.py _oracle_history) = ArgsSpec of the proofs by inspection',
+           'object identity is represented in the model by the recorded position of a group (positioned twins); the '
+           'oracle compares real object identities']
 ASSUMPTIONS = ['CPython list semantics (insert clamps, pop/index raise IndexError, remove raises ValueError, '
                'a failing extend keeps the items already added)',
                'the model driver is the compiled form of the verified definitions',
